@@ -18,6 +18,21 @@ Proof.
   split; [apply (i_used _ _ I)|apply (i_le _ _ I)].
 Qed.
 
+(** No leak: once no job holds units any more (everything submitted has been reported), nothing is counted as used —
+    the counterpart of the oracle's end-of-run check (seeded change C09d leaked the units of a job rejected before it
+    reached an executor). *)
+Theorem C08_no_units_leaked : forall c ops r,
+  release_if_holds (vr c) = true -> (forall r, (0 <= limit_of c r)%Z) -> Forall wf_op ops ->
+  (forall j x, getj (run c ops) j = Some x -> jholds x = false) ->
+  used (run c ops) r = 0%Z.
+Proof.
+  intros c ops r Hf Hl Hw Hn. destruct (C08_limits_never_exceeded c ops r Hf Hl Hw) as [E _]. rewrite E.
+  rewrite held_eq. unfold getj in Hn. generalize dependent (jobs (run c ops)). clear.
+  induction l as [|x t IH]; intros Hn; simpl; [reflexivity|].
+  rewrite IH; [|intros j y Hy; apply (Hn (S j) y Hy)].
+  unfold contrib. rewrite (Hn 0%nat x eq_refl). reflexivity.
+Qed.
+
 (** Jobs served from the cache or by deduplication hold no units. *)
 Theorem C08_cached_hold_nothing : forall c ops j x,
   release_if_holds (vr c) = true -> (forall r, (0 <= limit_of c r)%Z) -> Forall wf_op ops ->
@@ -84,6 +99,7 @@ Proof.
 Qed.
 
 Print Assumptions C08_limits_never_exceeded.
+Print Assumptions C08_no_units_leaked.
 Print Assumptions C08_cached_hold_nothing.
 Print Assumptions C08_released_once.
 Print Assumptions C08_refuted_as_shipped.
